@@ -13,24 +13,29 @@ def main():
     name = os.path.basename(d)
     pid = name.split("_")[0]
     checks = checks or [pid]
-    assert sh("git -C /repo status --porcelain").stdout.strip() == "", "repo dirty"
+    # the patch is applied in a scratch worktree of /repo; the checks analyse that tree through VERIF_REPO, so /repo
+    # itself is never modified and several evaluations can run side by side
+    wt0 = "/tmp/wt_mut_%d" % os.getpid()
+    sh("git -C /repo worktree add -q --detach %s HEAD" % wt0)
     res = {"name": name, "checks": {}}
-    r = sh("cd /repo && /venv/bin/python %s/demo.py" % d); res["demo_clean_rc"] = r.returncode
-    r = sh("git -C /repo apply --check %s/patch.diff" % d)
-    if r.returncode != 0:
-        res["apply"] = "FAILED: " + r.stderr[:300]; print(json.dumps(res, indent=1)); return
-    sh("git -C /repo apply %s/patch.diff" % d)
     try:
-        r = sh("cd /repo && /venv/bin/python %s/demo.py" % d); res["demo_mutant_rc"] = r.returncode
+        r = sh("cd %s && /venv/bin/python %s/demo.py" % (wt0, d)); res["demo_clean_rc"] = r.returncode
+        r = sh("git -C %s apply --check %s/patch.diff" % (wt0, d))
+        if r.returncode != 0:
+            res["apply"] = "FAILED: " + r.stderr[:300]; print(json.dumps(res, indent=1)); return
+        sh("git -C %s apply %s/patch.diff" % (wt0, d))
+        r = sh("cd %s && /venv/bin/python %s/demo.py" % (wt0, d)); res["demo_mutant_rc"] = r.returncode
         for c in checks:
             t = time.time()
-            r = sh("cd /verif && timeout 2700 ./check %s --tier %s" % (c, tier))
+            ev = "/verif/evidence/%s.json" % c
+            keep = open(ev).read() if os.path.exists(ev) else None
+            r = sh("cd /verif && VERIF_REPO=%s timeout 2700 ./check %s --tier %s" % (wt0, c, tier))
+            if keep is not None:
+                open(ev, "w").write(keep)
             lines = [l for l in r.stdout.splitlines() if l.startswith(("VIOLATION", "HARNESS-ERROR", "KNOWN"))]
             res["checks"][c] = {"rc": r.returncode, "wall": round(time.time() - t, 1), "lines": [l[:400] for l in lines[:6]]}
     finally:
-        sh("git -C /repo checkout -- .")
-        sh("cd /verif && git checkout -- evidence 2>/dev/null")
-    assert sh("git -C /repo status --porcelain").stdout.strip() == ""
+        sh("git -C /repo worktree remove --force %s" % wt0)
     if "--save" in sys.argv:
         import shutil
         wt = "/tmp/wt_eval_%d" % os.getpid()
@@ -57,7 +62,7 @@ def main():
                 "base_commit": sh("git -C /repo rev-parse --short HEAD").stdout.strip(),
                 "confirmed": {"demo_exit_on_clean_tree": res.get("demo_clean_rc"), "demo_exit_with_patch": res.get("demo_mutant_rc"),
                               "suite_with_patch_in_scratch_worktree": res.get("suite_with_patch"), "demo_exit_in_scratch_worktree": res.get("worktree_demo_rc")},
-                "ran": ["scratch worktree: git apply patch.diff; /venv/bin/python -m pytest -q -p no:cacheprovider -n 8; python demo.py; worktree removed", "git -C /repo apply patch.diff", "cd /repo && /venv/bin/python demo.py"] + ["./check %s --tier %s" % (c, tier) for c in checks] + ["git -C /repo checkout -- ."],
+                "ran": ["scratch worktree of /repo: git apply patch.diff; /venv/bin/python -m pytest -q -p no:cacheprovider -n 8; /venv/bin/python demo.py (clean and patched)"] + ["VERIF_REPO=<worktree> ./check %s --tier %s" % (c, tier) for c in checks] + ["git -C /repo worktree remove --force <worktree>"],
                 "detected_by": {c: {"exit": v["rc"], "wall_s": v["wall"], "first_lines": v["lines"][:3]} for c, v in res["checks"].items()}}
         json.dump(meta, open(os.path.join(dst, "meta.json"), "w"), indent=1)
     print(json.dumps(res, indent=1))
